@@ -50,7 +50,7 @@ def boundaries(ws):
         b = c * (1 << 32) / T
         fl = b.numerator // b.denominator
         out.update((fl, fl + 1) if b.denominator != 1 else (fl,))
-    return out
+    return {k for k in out if 0 <= k < (1 << 32)}
 
 
 def grid(ws, coarse_bits=12, d=3):
